@@ -1,5 +1,6 @@
 """C19 – congruent copies of a shape are stored once."""
 import math
+import re
 
 from hypothesis import strategies as st
 
@@ -30,7 +31,9 @@ RULE = (
     "one viewBox (>= 24 units), mixed with unrelated shapes, with solid or gradient fills, reuse_tolerance in {0.1, 0.5, 2} and formats "
     "{glyf_colr_0, glyf_colr_1, picosvg}. Oracle (read back from the binary): every member of the family draws the same stored outline "
     "(COLR: one outline glyph after resolving COLRv0 composite layer glyphs; picosvg: one <path>, all other members <use> it); with "
-    "tolerance -1 the same input must store one outline per member. Non-trivial: a copy rotated by an angle not within 1 degree of a "
+    "tolerance -1 the same input must store one outline per member. One case in eight uses an em of 8192/16384 units with an em height up to "
+    "1.85 upem, so that copies lie 16 000-30 000 units apart; a case is rejected (counted) only when the affine between some ordered pair of "
+    "members, computed from the generator's own matrices, has an entry >= 32767 (the 16.16 limit of the statement's exception). Non-trivial: a copy rotated by an angle not within 1 degree of a "
     "multiple of 90 degrees, or mirrored."
 )
 ASSUMPTIONS = ["fontTools decompiles COLR/glyf/SVG correctly", "copies are exact to double precision before printing with 6 decimals"]
@@ -46,6 +49,12 @@ def setup_worker():
 @st.composite
 def family_case(draw, tier):
     cfg = draw(font_config(FORMATS, transforms=False, max_upem=4096))
+    if draw(st.integers(0, 7)) == 0:
+        # a huge em: copies end up 16 000 - 30 000 font units apart, the upper half of what a 16.16 translation can hold
+        up = draw(st.sampled_from([8192, 16384]))
+        asc = int(up * draw(st.floats(0.8, 1.0)))
+        desc = -int(up * draw(st.floats(0.0, 0.85)))
+        cfg.update(upem=up, ascender=asc, descender=desc, width=draw(st.sampled_from([0, asc - desc])), linegap=0)
     cfg["reuse_tolerance"] = draw(st.sampled_from([0.1, 0.1, 0.5, 2.0]))
     if cfg["upem"] < 256:  # keep the artwork well above the tolerance in font units
         for k in ("upem", "ascender", "descender", "width", "linegap"):
@@ -79,14 +88,14 @@ def family_case(draw, tier):
         cx = vb[0] + draw(st.floats(0.2, 0.8)) * vb[2]
         cy = vb[1] + draw(st.floats(0.2, 0.8)) * vb[3]
         m = achain(scale(size), lin, translate(cx, cy))
-        members.append({"kind": kind, "angle": ang, "cmds": transform_cmds(unit, m), "glyph": draw(st.integers(0, nglyph - 1)) if k else 0})
+        members.append({"kind": kind, "angle": ang, "m": [float(x) for x in m], "cmds": transform_cmds(unit, m), "glyph": draw(st.integers(0, nglyph - 1)) if k else 0})
     sources = []
     for gi in range(nglyph):
         nodes = []
         for mem in members:
             if mem["glyph"] == gi:
                 fill = draw(paint_st(palette, cmds_bbox(mem["cmds"]), p_grad=0.3))
-                nodes.append({"t": "p", "d": mem["cmds"], "fill": fill, "op": 1.0, "tag": "fam:" + mem["kind"], "angle": mem["angle"]})
+                nodes.append({"t": "p", "d": mem["cmds"], "fill": fill, "op": 1.0, "tag": "fam:" + mem["kind"], "angle": mem["angle"], "m": mem["m"]})
         for _ in range(draw(st.integers(0, 2))):
             other = draw(unit_shape(("polygon", "rect", "cubic")))
             s2 = draw(st.floats(0.05, 0.2)) * min(vb[2], vb[3])
@@ -160,6 +169,7 @@ def _classify_miss(case, cfg):
     tol = cfg["reuse_tolerance"]
     keys = []
     paths = []
+    knife = False
     for s in case["sources"]:
         text = render(s["model"])
         svg = SVG.fromstring(text)
@@ -173,7 +183,15 @@ def _classify_miss(case, cfg):
                 fp = SVGPath(d=shp.as_path().d).apply_transform(Affine2D(*m))
                 paths.append(fp)
                 keys.append(normalize(SVGPath(d=fp.d), tol / 10).d)
-    if len(set(keys)) > 1:
+                # the same normal form before it is snapped to the grid: a coordinate within 1e-3 grid steps of a rounding
+                # boundary (x.5 steps) is snapped either way by float noise in the last digit of the path string, so the keys
+                # nanoemoji sees can differ although this replica's happen to agree
+                fine = normalize(SVGPath(d=fp.d), tol / 10 * 1e-7).d
+                for num in re.findall(r"-?\d+\.?\d*(?:e-?\d+)?", fine):
+                    q = float(num) / (tol / 10)
+                    if abs(abs(q - math.floor(q)) - 0.5) < 1e-3:
+                        knife = True
+    if len(set(keys)) > 1 or knife:
         return "normalisation-key-differs"
     for p in paths[1:]:
         if affine_between(SVGPath(d=paths[0].d), SVGPath(d=p.d), tol) is None:
@@ -205,6 +223,26 @@ def judge(case):
     if fsize < 40 * cfg["reuse_tolerance"]:
         v.discard = "family smaller than 40x tolerance in font units"
         return v
+    # "unless the placing transform cannot be represented": 16.16 holds |x| < 32768. Which member becomes the donor is the
+    # code's choice, so the case is only judged when the affine between *every* ordered pair of members (and its inverse,
+    # needed for a gradient fill) fits; that includes everything up to the format's real limit.
+    if all("m" in p for p in fam):
+        from ..geom import ainv
+        from ..ref_svg import em_transform
+
+        F = I if cfg["color_format"].startswith("picosvg") else em_transform(tuple(vb), cfg["ascender"], cfg["descender"], cfg["width"])[0]
+        worst = 0.0
+        for a in fam:
+            for b in fam:
+                if a is not b:
+                    A = achain(ainv(F), ainv(tuple(a["m"])), tuple(b["m"]), F)
+                    worst = max(worst, max(abs(x) for x in A))
+        v.extra["max_affine_entry"] = worst
+        if worst >= 32767.0:
+            v.rejected = "placing transform beyond 16.16"
+            return v
+        if worst > 16384:
+            v.cls("affine-entry>16384")
     on = build.build_font(cfg, srcs)
     off = build.build_font(dict(cfg, reuse_tolerance=-1), srcs)
     if on.error is not None or off.error is not None:
